@@ -58,6 +58,21 @@ def lay(t, layout):
     return t
 
 
+def _pack(t, pk, reorder, k):
+    """AWQPackedTensor.pack(t, packing, reorder) in one of the spellings its signature allows: the layout requested is the
+    same whether the arguments are given by keyword or by position"""
+    form = k % 4
+    if form == 0:
+        return cut(AWQPackedTensor.pack, t, packing=pk, reorder=reorder)
+    if form == 1:
+        return cut(AWQPackedTensor.pack, t, pk, reorder)
+    if form == 2:
+        return cut(AWQPackedTensor.pack, t, pk, reorder=reorder)
+    if not reorder:
+        return cut(AWQPackedTensor.pack, t, pk) if pk != AWQPacking.V1 or k % 8 == 3 else cut(AWQPackedTensor.pack, t)
+    return cut(AWQPackedTensor.pack, t, reorder=reorder, packing=pk)
+
+
 def exec_layout(case):
     out = Outcome()
     N, K, packing, reorder, layout = case["N"], case["K"], case["packing"], case.get("reorder", False), case.get("layout", "contig")
@@ -73,7 +88,7 @@ def exec_layout(case):
     for i in range(d):
         digit = ((pos >> (4 * i)) & 0xF).to(torch.uint8)
         t = lay(digit, layout)
-        p = cut(AWQPackedTensor.pack, t, packing=pk, reorder=reorder)
+        p = _pack(t, pk, reorder, N + K)
         if isinstance(p, Raised):
             return out.fail(f"{tag}/pack-raises:{p.type}", f"{p.text} (N={N}, K={K}, {layout})")
         want_shape, want_dtype = ((N // 4, K), torch.int16) if packing == "v2" else ((N, K // 8), torch.int32)
@@ -163,7 +178,7 @@ def exec_random(case):
     t_in = t.to(cdt)
     pk = AWQPacking.V2 if case["packing"] == "v2" else AWQPacking.V1
     tag = f"random/{case['packing']}"
-    p = cut(AWQPackedTensor.pack, t_in, packing=pk, reorder=case["reorder"])
+    p = _pack(t_in, pk, case["reorder"], case.get("seed", 0))
     if isinstance(p, Raised):
         return out.fail(f"{tag}/pack-raises:{p.type}{'' if cdt == torch.uint8 else '/codes-' + case.get('codes', 'u8')}", p.text)
     u = cut(p.unpack)
